@@ -5,6 +5,8 @@ import ast
 
 import z3
 
+from . import seqs as Q
+
 from . import locate
 from .api import parse_expr
 from .calls import eval_spec, spec_state, havoc_all
@@ -124,11 +126,11 @@ def x_Delete(E, node, st):
                     if not (isinstance(base, SVal) and isinstance(base.ty, TList)):
                         raise OutsideSubset("del on non-list subscript")
                     i = E.coerce(idx, INT, s2).t
-                    n = z3.Length(base.t)
+                    n = Q.Length(base.t)
                     s3 = E.guard(s2, z3.And(0 <= i, i < n), IndexError, "del index out of range")
                     if s3 is None:
                         continue
-                    nv = SVal(z3.Concat(z3.Extract(base.t, 0, i), z3.Extract(base.t, i + 1, n - i - 1)), base.ty)
+                    nv = SVal(Q.Concat(Q.Extract(base.t, 0, i), Q.Extract(base.t, i + 1, n - i - 1)), base.ty)
                     lv = base.origin or (LV("var", t.value.id) if isinstance(t.value, ast.Name) else None)
                     E.mutate(s3, lv, base, nv)
                     outs.append(s3)
@@ -183,10 +185,10 @@ def assign_target(E, target, val, st):
             items = [SVal(dt.accessor(0, i)(val.t), e) for i, e in enumerate(val.ty.elems)]
         elif isinstance(val, SVal) and isinstance(val.ty, TList):
             n = len(target.elts)
-            st = E.guard(st, z3.Length(val.t) == n, ValueError, "unpack: wrong number of values")
+            st = E.guard(st, Q.Length(val.t) == n, ValueError, "unpack: wrong number of values")
             if st is None:
                 return
-            items = [SVal(val.t[i], val.ty.elem) for i in range(n)]
+            items = [SVal(Q.At(val.t, i), val.ty.elem) for i in range(n)]
         else:
             raise OutsideSubset(f"unpack of {val!r}")
         cur = [st]
@@ -230,7 +232,7 @@ def assign_target(E, target, val, st):
                     raise OutsideSubset("subscript store into a temporary")
                 if isinstance(base, SVal) and isinstance(base.ty, TList):
                     i = E.coerce(idx, INT, s2).t
-                    s2 = E.guard(s2, z3.And(0 <= i, i < z3.Length(base.t)), IndexError, "list assignment index out of range")
+                    s2 = E.guard(s2, z3.And(0 <= i, i < Q.Length(base.t)), IndexError, "list assignment index out of range")
                     if s2 is None:
                         continue
                 E.assign_lv(s2, LV("key", lv, idx), val)
@@ -593,6 +595,8 @@ def _sym_for(E, node, st, bs, guard, ev, idx, n, invs, fname, ordinal):
         for key in heap_mods:
             if key in s.heap:
                 s.heap[key] = z3.Const(E.fresh_name(f"H{tag}_{key[0]}"), s.heap[key].sort())
+                from .calls import _wf_heap_key
+                _wf_heap_key(E, s, key)
         for g in ghost_mods:
             s.ghost[g] = E.fresh(s.ghost[g].ty, f"{tag}_ghost_{g}")
         if tainted:
@@ -608,7 +612,7 @@ def _sym_for(E, node, st, bs, guard, ev, idx, n, invs, fname, ordinal):
         body_st.assume(g)
     # bind the loop target to the k-th element
     lo_shift = z3.simplify(i - idx)
-    elem = _subst_val(ev, i, k + lo_shift)
+    elem = _subst_val(ev, i, k if (z3.is_int_value(lo_shift) and lo_shift.as_long() == 0) else k + lo_shift)
     outs = []
     for s2 in assign_target(E, node.target, elem, body_st):
         outs.extend(exec_block(E, node.body, s2))
